@@ -208,6 +208,28 @@ fn real_mantissas(full: bool) -> Vec<u64> {
 
 pub struct C15;
 
+/// one codec call in an operation sequence
+#[derive(Clone, Debug)]
+pub enum SeqOp {
+    Enc(u64),
+    Dec(u64),
+}
+pub const SEQ_ALPHABET_LEN: usize = 36;
+/// value alphabet for call sequences: +-x pairs, neighbours, whole numbers around 2^31, and reals
+pub fn seq_alphabet() -> Vec<SeqOp> {
+    let mut v = vec![];
+    for x in [1.0f64, 2.5, 1e-3, 90.0, 2147483648.0, 4294967295.0, 16.0, 0.0625, 1e-9, 7.237005577332262e75 / 16.0] {
+        v.push(SeqOp::Enc(x.to_bits()));
+        v.push(SeqOp::Enc((-x).to_bits()));
+        v.push(SeqOp::Enc(x.to_bits() + 1));
+    }
+    for r in [0x4110_0000_0000_0000u64, 0xC110_0000_0000_0000, 0x0010_0000_0000_0000, 0x7FFF_FFFF_FFFF_FFFF, 0x41FF_FFFF_FFFF_FFF8, 0x3E41_8937_4BC6_A7F0] {
+        v.push(SeqOp::Dec(r));
+    }
+    assert_eq!(v.len(), SEQ_ALPHABET_LEN);
+    v
+}
+
 const F_ENC_VALUE: &str = "gds_real_encode_below_power_of_16";
 
 fn finding_for_encode(bits: u64) -> Option<&'static str> {
@@ -376,7 +398,7 @@ impl Driver for C15 {
     fn describe(&self, tier: Tier) -> Describe {
         Describe {
             rule: format!(
-                "doubles: every binary exponent -256..=251 (16^-64 <= |x| < 16^63) x both signs x {} fraction patterns (0..3, all-ones-0..3 i.e. everything within 3 ulp of every power of two and sixteen, all 1-bit{} patterns, alternating, pi, e) plus +-0; 8-byte reals: exponent byte 0..127 x sign x {} normalised mantissas (first nibble 1..15 with zeros / ones / 1-bit / 2-bit tails, and every low-bit pattern under seven 53-bit prefixes = all rounding cases: below half, tie to even both ways, above half); every edge value also through UNITS/MAG/ANGLE records with write+from_bytes. A state is one value; non-trivial = mantissa/fraction not zero. Oracle: exact integer arithmetic (unique normalised encoding; round-to-nearest-even decode).",
+                "doubles: every binary exponent -256..=251 (16^-64 <= |x| < 16^63) x both signs x {} fraction patterns (0..3, all-ones-0..3 i.e. everything within 3 ulp of every power of two and sixteen, all 1-bit{} patterns, alternating, pi, e) plus +-0; 8-byte reals: exponent byte 0..127 x sign x {} normalised mantissas (first nibble 1..15 with zeros / ones / 1-bit / 2-bit tails, and every low-bit pattern under seven 53-bit prefixes = all rounding cases: below half, tie to even both ways, above half); every edge value also through UNITS/MAG/ANGLE records with write+from_bytes. A state is one value; non-trivial = mantissa/fraction not zero. Also every call sequence of length 2 and 3 over a 36-value alphabet of encode / decode calls (+-x pairs, neighbours, whole numbers around 2^31, extreme reals): the last call must return the exact result whatever was called before (the codec is a pure function). Oracle: exact integer arithmetic (unique normalised encoding; round-to-nearest-even decode).",
                 frac_patterns(tier.is_thorough()).len(),
                 if tier.is_thorough() { ", all 2-bit and all 3-bit" } else { ", edge 2-bit" },
                 real_mantissas(tier.is_thorough()).len()
@@ -395,6 +417,9 @@ impl Driver for C15 {
             v.push(format!("R:{ex}"));
         }
         v.push("z".into());
+        for i in 0..SEQ_ALPHABET_LEN {
+            v.push(format!("Q:{i}"));
+        }
         if _tier.is_thorough() {
             for i in 0..64 {
                 v.push(format!("X:{i}"));
@@ -421,6 +446,65 @@ impl Driver for C15 {
                 cx.state(hash_bytes(&z.to_bits().to_le_bytes()), false);
             }
             cx.tag("zero");
+            return;
+        }
+        if let Some(qs) = unit.strip_prefix("Q:") {
+            // operation sequences: the codec must be a pure function - every call sequence of length 2 and 3
+            // over a small value alphabet (mixing encode and decode calls) must give, at its last call, the
+            // exact result, whatever was encoded or decoded before ("start from non-initial states")
+            let first: usize = qs.parse().unwrap();
+            cx.enter(unit);
+            let alpha = seq_alphabet();
+            let call = |op: &SeqOp| -> u64 {
+                match op {
+                    SeqOp::Enc(b) => GdsFloat64::encode(f64::from_bits(*b)),
+                    SeqOp::Dec(r) => GdsFloat64::decode(*r).to_bits(),
+                }
+            };
+            let want = |op: &SeqOp| -> u64 {
+                match op {
+                    SeqOp::Enc(b) => ref_encode(*b),
+                    SeqOp::Dec(r) => ref_decode(*r),
+                }
+            };
+            let mut n = 0u64;
+            let a = &alpha[first];
+            for b in alpha.iter() {
+                for c3 in std::iter::once(None).chain(alpha.iter().map(Some)) {
+                    n += 1;
+                    cx.stats.executions += 1;
+                    cx.stats.transitions += if c3.is_some() { 3 } else { 2 };
+                    cx.stats.evaluations += 1;
+                    let last = c3.unwrap_or(b);
+                    let got = guard(|| {
+                        let _ = call(a);
+                        if c3.is_some() {
+                            let _ = call(b);
+                        }
+                        call(last)
+                    });
+                    let key = format!("q:{first}:{}", n);
+                    match got {
+                        Err(p) => cx.fail(&key, "sequence-panic", None, || p.short(), || Value::Null),
+                        Ok(g) => {
+                            if g != want(last) {
+                                cx.outcome("sequence-mismatch");
+                                cx.fail(
+                                    &key,
+                                    "call-sequence",
+                                    None,
+                                    || format!("after {:?}{} the call {:?} returned {g:#018x}, the exact result is {:#018x}", a, if c3.is_some() { format!(", {:?}", b) } else { String::new() }, last, want(last)),
+                                    || json!({"sequence": format!("{:?} {:?} {:?}", a, b, c3)}),
+                                );
+                            } else {
+                                cx.outcome("sequence-exact");
+                            }
+                        }
+                    }
+                }
+            }
+            cx.bulk_states(n, n);
+            cx.tag("sequences");
             return;
         }
         if let Some(xs) = unit.strip_prefix("X:") {
@@ -537,7 +621,7 @@ impl Driver for C15 {
         json!({"unit": key})
     }
     fn guards(&self, _tier: Tier, stats: &Stats, _distinct: u64) -> Result<(), String> {
-        require_tags(stats, &["doubles", "reals", "zero", "reencode-checked"])?;
+        require_tags(stats, &["doubles", "reals", "zero", "reencode-checked", "sequences"])?;
         require_outcomes(stats, &["encode-exact", "decode-exact", "records-exact"])
     }
 }
